@@ -432,6 +432,8 @@ class Interp:
             raise Unsupported("attribute %s.%s" % (base.name, e.attr))
         if isinstance(base, (Lst, SetLst)):
             return ("listmethod", e.value, e.attr)
+        if isinstance(base, z3.ExprRef) and base.sort() == ValSort and self.spec.get("attr_val") is not None:
+            return self.spec["attr_val"](self, st, base, e.attr)
         if isinstance(base, str) and e.attr == "format":
             return Fn("str.format", lambda it, s, a, k: "<str>")
         raise Unsupported("attribute on %r" % (base,))
@@ -457,6 +459,12 @@ class Interp:
                 kwargs[k.arg] = self.eval(k.value, st)
         if isinstance(f, Fn):
             return f.fn(self, st, args, kwargs)
+        if isinstance(f, z3.ExprRef) and f.sort() == ValSort and self.spec.get("call_val") is not None:
+            return self.spec["call_val"](self, st, f, args, kwargs)
+        if f == "len" and len(args) == 1 and isinstance(args[0], Obj) and self.spec.get("len") is not None:
+            return self.spec["len"](self, st, args[0])
+        if f == "set":
+            return "<set>"
         if f == "list" and not args:
             if self.spec.get("list_abstraction") == "set":
                 return SetLst(z3.K(ValSort, z3.BoolVal(False)))
